@@ -66,7 +66,9 @@ class TlcResult:
         self.crashed = ('TLC threw an unexpected exception' in out or 'Parsing or semantic analysis failed' in out
                         or 'Error: TLC' in out or 'java.lang.' in out and 'Exception' in out and not self.violated)
         # coverage: actions never taken
-        self.untaken = re.findall(r'<(\w+) line \d+, col \d+ to line \d+, col \d+ of module \w+>: 0:0', out)
+        # (TLC prints coverage periodically: only the LAST report counts, earlier ones may precede the first step)
+        last = out.rfind('The coverage statistics at')
+        self.untaken = re.findall(r'<(\w+) line \d+, col \d+ to line \d+, col \d+ of module \w+>: 0:0', out[last:] if last >= 0 else out)
 
 
 def run_tlc(module, cfg, label, workers=1, timeout=900, env=None, extra=None, xmx=None, deque=False,
